@@ -48,7 +48,7 @@ SeriesOf(X, v) ==
     [] v.diagram = "hist" -> HistSeries(X, v.m, v.axis, ThsA)
     [] v.diagram = "freq" -> FreqSeries(X, v.axis, ThsA)
     [] v.diagram = "cond" -> CondSeries(X, v.axis, ThsA)
-    [] v.diagram = "timeseries" -> TimeSeriesSeries(X)
+    [] v.diagram = "timeseries" -> TimeSeriesSeries(X) \o (IF "e0" \in FieldsOf(Ds) THEN TimeSeriesMembers(X, <<"e0", "e1", "e2">>) ELSE <<>>)
     [] v.diagram = "error" -> ErrorSeries(X, v.axis)
     [] v.diagram = "performance" -> PerformanceSeries(X, v.axis, "above", R(2))
     [] v.diagram = "droc" -> DRocSeries(X, v.axis, R(2), DRocFths(R(2)))
@@ -64,12 +64,13 @@ Emit == LET X == Context(Ds, gen.opt) IN
                        opts |-> OptJson(gen.opt), diagram |-> d.diagram, argv |-> d.argv, axis |-> d.axis,
                        unordered |-> d.diagram \in {"scatter", "against", "impact"}, bars |-> (d.diagram = "standard" /\ d.axis = "no"),
                        series |-> SeriesJ(SeriesOf(X, d))]))
-Init == gen \in {x \in Universe(0) : Usable(x)} /\ d \in Variants /\ phase = "case"
+\* the ensemble universe is drawn as a time series only (the one diagram that shows the members)
+Init == gen \in {x \in Universe(0) : Usable(x)} /\ d \in {v \in Variants : Family # "C18Ens" \/ v.diagram = "timeseries"} /\ phase = "case"
 Evaluate == phase = "case" /\ phase' = "emitted" /\ UNCHANGED <<gen, d>> /\ Emit
 Next == Evaluate
 Spec == Init /\ [][Next]_vars
 InvOneSeriesPerInput == LET X == Context(Ds, gen.opt) IN
-   OneSeriesPerInput(SeriesOf(X, d), IF d.diagram = "against" THEN 0 ELSE IF d.diagram = "impact" THEN Len(SeriesOf(X, d)) ELSE IF d.diagram = "cond" THEN 2 * X.n ELSE IF d.diagram = "timeseries" THEN X.n * Len(X.T) ELSE X.n,
+   OneSeriesPerInput(SeriesOf(X, d), IF d.diagram = "against" THEN 0 ELSE IF d.diagram = "impact" THEN Len(SeriesOf(X, d)) ELSE IF d.diagram = "cond" THEN 2 * X.n ELSE IF d.diagram = "timeseries" THEN X.n * Len(X.T) * (IF "e0" \in FieldsOf(Ds) THEN 4 ELSE 1) ELSE X.n,
                      IF d.diagram \in {"obsfcst", "freq", "against"} THEN 1 ELSE 0)
 InvBins == LET X == Context(Ds, gen.opt) IN d.diagram = "hist" => \A i \in 1..X.n : EveryValueInOneBin(ValuesOf(X, i, d.m, "no", 1), d.axis, ThsA)
 \* ---- witnesses against vacuity (tools/vacuity.py): each is the NEGATION of a lemma's antecedent and must be VIOLATED by some enumerated case ----
